@@ -1116,3 +1116,67 @@ func (w *World) coalesceResultCopies(overlay map[string][]byte) (map[string][]by
 	}
 	return out, done
 }
+
+// splitIfInits: `if a, b := h(x); COND { … }` with h a function the rules have never seen is written as
+// `{ a, b := h(x); if COND { … } }` — the same scopes, the same evaluation — so that the helper's body can be
+// substituted at an ordinary assignment.
+func (w *World) splitIfInits(overlay map[string][]byte) (map[string][]byte, []string) {
+	edits := map[string][]textEdit{}
+	var done []string
+	for _, name := range w.SortedFuncNames() {
+		f := w.Funcs[name]
+		if f.Decl.Body == nil {
+			continue
+		}
+		tf, fname := w.fileOf(f.Decl.Pos())
+		var stack []ast.Node
+		ast.Inspect(f.Decl.Body, func(x ast.Node) bool {
+			if x == nil {
+				stack = stack[:len(stack)-1]
+				return true
+			}
+			stack = append(stack, x)
+			ifs, ok := x.(*ast.IfStmt)
+			if !ok || ifs.Init == nil || len(stack) < 2 {
+				return true
+			}
+			if !isBlockMember(stack[len(stack)-2], ifs) {
+				return true
+			}
+			as, ok := ifs.Init.(*ast.AssignStmt)
+			if !ok || as.Tok != token.DEFINE || len(as.Rhs) != 1 || len(as.Lhs) < 2 {
+				return true
+			}
+			call, ok := ast.Unparen(as.Rhs[0]).(*ast.CallExpr)
+			if !ok {
+				return true
+			}
+			fn := f.Callee(call)
+			if fn == nil || fn.Pkg() == nil || pkgKey(fn.Pkg().Path()) == "" {
+				return true
+			}
+			h := w.FuncOf(fn)
+			if h == nil {
+				return true
+			}
+			if _, pinned := pinnedFuncs[h.Name]; pinned || w.aliased[h] {
+				return true
+			}
+			src := readSource(fname, overlay)
+			initText := string(src[tf.Offset(as.Pos()):tf.Offset(as.End())])
+			edits[fname] = append(edits[fname],
+				textEdit{tf.Offset(ifs.Pos()), tf.Offset(ifs.Cond.Pos()), "{\n" + initText + "\nif "},
+				textEdit{tf.Offset(ifs.End()), tf.Offset(ifs.End()), "\n}"})
+			done = append(done, name+":"+h.Decl.Name.Name)
+			return false
+		})
+	}
+	if len(done) == 0 {
+		return nil, nil
+	}
+	out := applyEdits(w, overlay, edits)
+	if out == nil {
+		return nil, nil
+	}
+	return out, done
+}
